@@ -438,23 +438,29 @@ def _run(ctx, pool, root0, dtasks):
             pairs = rngS.sample(pairs, 2)
         for f1, f2 in pairs:
             for mode in (('first', 'forced') if ctx.thorough or kind in ('dirData', 'continues') else (rngS.choice(['first', 'forced']),)):
-                seqs.append((kind, mode, f1, f2))
+                seqs.append((kind, mode, f1, f2, False))
+        # the first (failing) attempt works on a LARGER value than the later ones: what it leaves behind must not leak into them
+        # (only raise points after which nothing complete of the larger size exists: a directory task failing at the type check has
+        #  finished its directory, which the size-specific classification of the later steps would not recognise)
+        #  a resumable task continues in the kept work directory by design: what an earlier attempt left there is its own business)
+        for f1 in [f_ for f_ in FAULTS[kind] if not (kind == 'dirData' and f_ == 'typeCheck') and kind != 'continues']:
+            seqs.append((kind, rngS.choice(['first', 'forced']), f1, rngS.choice(FAULTS[kind]), True))
     jobsS = []
-    for qi, (kind, mode, f1, f2) in enumerate(seqs):
+    for qi, (kind, mode, f1, f2, big_first) in enumerate(seqs):
         size = size_of(kind, 'small')
         root = str(root0 / f's{qi}')
         Path(root).mkdir(parents=True, exist_ok=True)
-        r1 = request_step(kind, root, mode, f1, size, True)
+        r1 = request_step(kind, root, mode, f1, size_of(kind, 'medium') if big_first else size, True)
         r2 = request_step(kind, root, mode, f2, size, True); r2['ctl'] = dict(r2['ctl'], gen=3)
         snap = {'do': 'snapshot', 'kind': kind, 'root': root, 'size': size}
         jobsS.append(setup_steps(kind, root, mode, size) + [snap, r1, snap, r2] + tail_steps(kind, root, size, g=4))
     resS = pool.map(jobsS)
 
-    def procS(qi, kind, mode, f1, f2, res):
+    def procS(qi, kind, mode, f1, f2, big_first, res):
         check_step_errors(res, f'phase S {seqs[qi]}')
         size = size_of(kind, 'small')
         snap0, req1, snap1, req2, snap2, obs = res[-6:]
-        case = {'phase': 'fault-sequence', 'class': kind, 'mode': mode, 'raise_at': [f1, f2]}
+        case = {'phase': 'fault-sequence', 'class': kind, 'mode': mode, 'raise_at': [f1, f2], 'first_attempt_larger': big_first}
         ctx.case(case, nontrivial=True); ctx.count(f'sequence:{kind}')
         existed = mode == 'forced'
         # oracle first (model-independent)
